@@ -9,6 +9,12 @@ plain structural `induction` works in the proof files.
 -/
 namespace StepModel.P21
 
+/-- how a value is reached from its attribute, where the value itself does not show it: through a SELECT-typed attribute
+    or aggregate element (`SDAI_Select::STEPread`), or through a redeclared position (forwarded to the redefining attribute) -/
+inductive Path where
+  | select | redecl
+  deriving DecidableEq, Repr, Inhabited
+
 inductive Val where
   | null                          -- `$` (or nothing)
   | derived                       -- `*`
@@ -18,6 +24,7 @@ inductive Val where
   | aggr (elems : Val)            -- `( … )`, elems is a `nil`/`cons` chain
   | nil
   | cons (hd tl : Val)
+  | via (p : Path) (v : Val)      -- `v`, read through `p` (not visible in the file text)
   deriving DecidableEq, Repr, Inhabited
 
 namespace Val
@@ -32,6 +39,7 @@ def mapRefs (f : Int → Int) : Val → Val
   | aggr e => aggr (mapRefs f e)
   | nil => nil
   | cons h t => cons (mapRefs f h) (mapRefs f t)
+  | via p v => via p (mapRefs f v)
 
 /-- every reference, at every depth, left to right -/
 def refs : Val → List Int
@@ -43,6 +51,7 @@ def refs : Val → List Int
   | aggr e => refs e
   | nil => []
   | cons h t => refs h ++ refs t
+  | via _ v => refs v
 
 def ofList : List Val → Val
   | [] => nil
@@ -60,6 +69,8 @@ structure Part where
 structure Inst where
   id : Int
   parts : List Part
+  /-- the Part 21 comment(s) in front of the instance (`SDAI_Application_instance::P21Comment`), opaque text; "" = none -/
+  comment : String := ""
   deriving DecidableEq, Repr, Inhabited
 
 namespace Inst
@@ -100,9 +111,11 @@ def encodeVal : Val → List String
   | .aggr e => ("A" ++ toString (chainLen e)) :: encodeVal e
   | .nil => []
   | .cons h t => encodeVal h ++ encodeVal t
+  | .via .select v => "Vs" :: encodeVal v
+  | .via .redecl v => "Vr" :: encodeVal v
 
 def encodeInst (i : Inst) : String :=
-  " ".intercalate (["I", toString i.id, toString i.parts.length] ++
+  " ".intercalate ((if i.comment.isEmpty then [] else ["K" ++ hexOf i.comment]) ++ ["I", toString i.id, toString i.parts.length] ++
     i.parts.flatMap (fun p => [p.name, toString p.vals.length] ++ p.vals.flatMap encodeVal))
 
 /-- parse one value from a word list (fuel = number of words) -/
@@ -110,7 +123,9 @@ def decodeVal : Nat → List String → Option (Val × List String)
   | 0, _ => none
   | _ + 1, [] => none
   | fuel + 1, w :: ws =>
-    if w = "N" then some (.null, ws) else if w = "D" then some (.derived, ws) else
+    if w = "N" then some (.null, ws) else if w = "D" then some (.derived, ws)
+    else if w = "Vs" then (decodeVal fuel ws).map (fun (v, r) => (.via .select v, r))
+    else if w = "Vr" then (decodeVal fuel ws).map (fun (v, r) => (.via .redecl v, r)) else
     match w.toList with
     | 'T' :: r => (unhex (String.ofList r)).map (fun s => (.tok s, ws))
     | 'R' :: r => (String.ofList r).toInt?.map (fun i => (.ref i, ws))
@@ -146,14 +161,24 @@ def decodeParts (fuel : Nat) : Nat → List String → Option (List Part × List
     pure ({ name := nm, vals := vs } :: ps, rest')
   | _ + 1, _ => none
 
-/-- `I <id> <nparts> (<NAME> <nvals> value*)*` -/
-def decodeInst (ws : List String) : Option (Inst × List String) :=
+def decodeInstCore (cm : String) (ws : List String) : Option (Inst × List String) :=
   match ws with
   | "I" :: id :: np :: rest => do
     let id ← id.toInt?
     let np ← np.toNat?
     let (ps, rest') ← decodeParts (rest.length + 1) np rest
-    pure ({ id := id, parts := ps }, rest')
+    pure ({ id := id, parts := ps, comment := cm }, rest')
   | _ => none
+
+/-- `[K<hex comment>] I <id> <nparts> (<NAME> <nvals> value*)*` -/
+def decodeInst (ws : List String) : Option (Inst × List String) :=
+  match ws with
+  | w :: rest =>
+    match w.toList with
+    | 'K' :: r => do
+      let cm ← unhex (String.ofList r)
+      decodeInstCore cm rest
+    | _ => decodeInstCore "" ws
+  | [] => none
 
 end StepModel.P21
